@@ -6,6 +6,23 @@ import os
 VERIF = os.path.dirname(os.path.dirname(os.path.abspath(__file__)))
 
 CHECKS = {
+    "C14": {
+        "text": "All 256 subsets of the eight assignment qualifiers x all value sequences the property names x rest-of-line matching or not, "
+        "each executed as a real csvpath over a 3-record file and compared with the 25-line decision table in models/refassign.py "
+        "(vote via returned lines, x before every line via a first-position push, final x). The quick tier already covers the whole "
+        "space the property states.",
+        "design": "3 / C14",
+        "note": "trusted: models/refassign.py (transcribed from docs/assignment.md and docs/qualifiers.md); AND mode; values are header strings",
+        "technique": "exhaustive enumeration of the full qualifier x value-history space on the real interpreter against a decision-table model",
+    },
+    "C05": {
+        "text": "Every non-empty subset of the six policy flags x every single validation-mode override x five error kinds x every position of "
+        "zero, one or two erroring records (deviation-bounded fault enumeration: 0, 1, 2 faults), policy injected through a Config "
+        "object and through config.ini; outcome compared with models/refpolicy.py on six observables.",
+        "design": "3 / C05",
+        "note": "trusted: models/refpolicy.py (from the property statement); the five error kinds are representatives; error-record multiplicity not asserted",
+        "technique": "exhaustive fault-position x configuration enumeration on the real error handler against an outcome-function model",
+    },
     "C02": {
         "text": "Every scan string of the stated shapes with every bound 0..N+2 over every file of N<=5 (thorough: <=10) "
         "records with every blank pattern is run on the real CsvPath and compared with the denotation in models/refscan.py "
